@@ -210,7 +210,10 @@ class Driver:
                     return ('ok', r.h)
                 return ('err', o.fields[0].v)
             if kind == 'check_quotes':
-                n = sum(1 for c in chars if c == '"')
+                n = 0
+                for c in chars:
+                    if isinstance(c, str): n += (c == '"')
+                    elif self.m.branch(self.m.binop('Eq', c, '"')): n += 1
                 o = self.m.call('parse_terms::check_quotes', [StrRef(s), n])
                 return ('err', o.fields[0].v) if o.vidx == 1 else ('ok', None)
             if kind in ('infix', 'arith_infix'):
